@@ -6,6 +6,13 @@ func Catalogue(prop, tier string) []Cfg {
 	var out []Cfg
 	add := func(c Cfg) {
 		c.Prop = prop
+		if c.Harness == "prio" && (c.Disc == "v2" || c.Disc == "s2") && (c.Div == "fair" || c.Div == "rate" || c.Div == "low") {
+			// v2 rejects quantities for which some priority's share is zero: use the
+			// smallest quantity from the requested one upwards that the constructor accepts
+			for !accepted(c.P, c.H, c.Div) {
+				c.H++
+			}
+		}
 		if c.BudgetS == 0 {
 			if quick {
 				c.BudgetS = 40
@@ -61,6 +68,9 @@ func Catalogue(prop, tier string) []Cfg {
 		add(c)
 		// simple v1
 		add(pc("s1", []uint{2, 1}, 2, "fair", []int{2}, []int{1, 1}, "", ""))
+		// v1 accepts fewer handlers than inputs
+		add(pc("s1", []uint{2, 1}, 1, "fair", []int{2}, []int{2, 1}, "", ""))
+		add(pc("v1", []uint{2, 1}, 1, "fair", []int{2}, []int{1, 1}, "rr", ""))
 		// key-mode cross-checks: a history-keyed exploration cut at depth Cross must
 		// reach no monitor state that the state-keyed exploration misses
 		for _, x := range []Cfg{
@@ -122,6 +132,16 @@ func Catalogue(prop, tier string) []Cfg {
 		add(c)
 		c = pc("v1", []uint{3, 2, 1}, 6, "rate", []int{4, 1, 1}, []int{4, 0, 1}, "rr", "")
 		c.Script, c.Ops = 1, []int{3}
+		add(c)
+		// removals that are no-ops by meaning: a priority never registered, a priority removed twice
+		c = pc("v1", []uint{2, 1}, 2, "fair", []int{1}, []int{1, 1}, "rr", "")
+		c.Script, c.Ops = 1, []int{6}
+		add(c)
+		c = pc("v1", []uint{2, 1}, 2, "fair", []int{1}, []int{1, 1}, "rr", "")
+		c.Script, c.Ops = 2, []int{3, 7}
+		add(c)
+		c = pc("v1", []uint{2, 1}, 2, "fair", []int{1}, []int{1, 1}, "pool", "")
+		c.Script, c.Ops = 3, []int{6, 7, 0}
 		add(c)
 	}
 	switch prop {
@@ -209,13 +229,16 @@ func Catalogue(prop, tier string) []Cfg {
 			c.Stop = "twice"
 			add(c)
 		}
-		for _, stop := range []string{"stop", "cancel"} {
+		for _, stop := range []string{"stop", "cancel", "stop+graceful", "cancel+graceful"} {
 			c := pc("v1", []uint{2, 1}, 2, "fair", []int{2}, []int{2}, "pool", "")
 			c.Stop = stop
 			add(c)
 			c = pc("s1", []uint{2, 1}, 2, "fair", []int{2}, []int{1, 1}, "", "")
 			c.Stop = stop
 			add(c)
+			if stop == "stop+graceful" || stop == "cancel+graceful" {
+				continue
+			}
 			add(Cfg{Harness: "join", Disc: "join1", J: 2, NoCopy: true, Cap: []int{1}, N: []int{4}, Stop: stop, Timeout: 4, Pauses: []int64{0, 5}, Delays: []int64{0, 5}, Bound: -1})
 		}
 		for _, disc := range []string{"join2", "unite2", "join1"} {
@@ -796,6 +819,29 @@ func Catalogue(prop, tier string) []Cfg {
 				c.Stop, c.Fault, c.NoErr = stop, true, true
 				add(c)
 			}
+		}
+		// a graceful stop requested while a rough one is under way (in any order), also
+		// with inputs that are never closed: the graceful stop alone would never end
+		for _, stop := range []string{"stop+graceful", "cancel+graceful"} {
+			c := pc("s1", []uint{2, 1}, 2, "fair", []int{2}, []int{1, 1}, "", "")
+			c.Stop = stop
+			add(c)
+			c = pc("s1", []uint{1}, 1, "fair", []int{2}, []int{1}, "", "open")
+			c.Stop = stop
+			add(c)
+			c = pc("v1", []uint{2, 1}, 2, "fair", []int{2}, []int{1, 1}, "pool", "open")
+			c.Stop = stop
+			add(c)
+			// inputs drained, one handler busy for ever, one vacant, graceful stop pending
+			c = pc("v1", []uint{2, 1}, 2, "fair", []int{2}, []int{1, 0}, "pool", "norelease")
+			c.Stop = stop
+			add(c)
+			c = pc("v1", []uint{1}, 3, "fair", []int{2}, []int{2}, "pool", "norelease")
+			c.Stop = stop
+			add(c)
+			c = pc("v1", []uint{2, 1}, 2, "fair", []int{2}, []int{2, 1}, "pool", "norelease")
+			c.Stop = stop
+			add(c)
 		}
 		// Stop() and cancel() racing from two goroutines
 		for _, mode := range []string{"", "norelease"} {
